@@ -69,6 +69,19 @@ def main():
     w.flush()
     res["stream"] = hashlib.sha256(fp.getvalue()).hexdigest()
 
+    def seen(rs, with_list=True):
+        """What a reader hands back: wall clock fields and UTC offset of every timestamp (not its printed form)."""
+        def t(d):
+            return None if d is None else (d.year, d.month, d.day, d.hour, d.minute, d.second, d.microsecond,
+                                           d.utcoffset().total_seconds() if d.utcoffset() is not None else "naive")
+        out = [(t(r.ts), [t(x) for x in r.tss] if with_list else None, t(r._generated), str(r.s)) for r in rs]
+        return hashlib.sha256(json.dumps(out).encode()).hexdigest()
+
+    from flow.record import RecordReader
+    from flow.record.stream import RecordStreamReader
+
+    res["read-stream"] = seen(list(RecordStreamReader(io.BytesIO(fp.getvalue()))))
+
     class KeepS(io.StringIO):
         def close(self):
             pass
@@ -79,6 +92,11 @@ def main():
         jw.write(r)
     jw.flush()
     res["json"] = hashlib.sha256(sfp.getvalue().encode()).hexdigest()
+    from flow.record import JsonRecordPacker
+
+    jp = JsonRecordPacker()
+    back = [jp.unpack(line) for line in sfp.getvalue().splitlines() if line.strip()]
+    res["read-json"] = seen([b for b in back if hasattr(b, "ts")])
 
     tmp = tempfile.mkdtemp(prefix="verif-c13-")
     try:
@@ -94,6 +112,10 @@ def main():
             dump = "\n".join(con.iterdump())
             con.close()
             res[key] = hashlib.sha256(dump.encode()).hexdigest()
+            if key == "sqlite":
+                rd = RecordReader("sqlite://" + dbp)
+                res["read-sqlite"] = seen(list(rd), with_list=False)
+                rd.close()
 
         adesc = RecordDescriptor("c13/a", [("datetime", "ts"), ("string", "s")])
         ap = os.path.join(tmp, "x.avro")
@@ -110,6 +132,9 @@ def main():
         with open(ap, "rb") as f:
             rows = [(row["ts"].isoformat() if row["ts"] is not None else None, row["s"]) for row in fastavro.reader(f)]
         res["avro"] = hashlib.sha256(json.dumps(rows).encode()).hexdigest()
+        rd = RecordReader(ap)
+        res["read-avro"] = seen(list(rd), with_list=False)
+        rd.close()
     finally:
         import shutil
 
